@@ -92,6 +92,7 @@ def _run_cvc5(text, timeout_ms):
 
 
 GROUND_TIMEOUT_MS = int(os.environ.get('PYVC_GROUND_MS', '5000'))
+QUICK_Z3_MS = int(os.environ.get('PYVC_QUICK_Z3_MS', '1500'))
 
 
 def _run_ground(text, timeout_ms):
@@ -127,6 +128,12 @@ def _run_ground(text, timeout_ms):
 def solve_one(task):
     name, text, want = task
     total = 0.0
+    if want != 'reach':
+        # a short attempt with z3's own E-matching first: most obligations fall here in milliseconds
+        res0, info0 = _run_z3(text, QUICK_Z3_MS)
+        total += info0.get('time', 0)
+        if res0 == 'unsat':
+            return name, 'unsat', {'backend': 'z3', 'time': total}
     gres, ginfo = _run_ground(text, GROUND_TIMEOUT_MS)
     total += ginfo.get('time', 0)
     if gres == 'unsat':
